@@ -246,3 +246,132 @@ func RandomRouteRequests(rng *rand.Rand, n int) []*Request {
 	}
 	return out
 }
+
+// ---- template families: RPCs of one service that share a path hierarchy -------------------------
+//
+// Two request messages of one resource often name their key field differently (GetItemRequest.id,
+// DeleteItemRequest.item_id); the path variable has to be spelled like the field, so one service ends
+// up with GET /items/{id} and DELETE /items/{item_id}. Every generator must keep each RPC's own
+// template and its own path fields. The family varies: variable names (same / different / swapped /
+// one of two different), verbs, number and position of the variables, the order of the RPCs, literal
+// siblings of a variable segment, and the base path shape. RPCs of one hierarchy carry different
+// verbs, so the definitions are valid for net/http's ServeMux as well.
+
+type tmplRPC struct{ name, verb, path string }
+
+func templateFamilyService(pkg, svcName, base string, rpcs []tmplRPC, f *File) *Service {
+	svc := &Service{Name: svcName, BasePath: base, HasConfig: base != ""}
+	for i, t := range rpcs {
+		nq := 0
+		if t.verb == "GET" && i%2 == 0 {
+			nq = 1
+		}
+		meth, msg := routeRPC(pkg, i, svcName+t.name, t.verb, t.path, true, nq, []string{"string", "int64", "uint32", "bool"})
+		svc.Methods = append(svc.Methods, meth)
+		f.Messages = append(f.Messages, msg)
+	}
+	return svc
+}
+
+// TemplateFamilyRequests: deterministic catalogue of same-hierarchy services.
+func TemplateFamilyRequests() []*Request {
+	var out []*Request
+	families := []struct {
+		id   string
+		rpcs []tmplRPC
+	}{
+		// the resource pattern: one variable, different names, every verb once
+		{"one", []tmplRPC{{"Get", "GET", "/items/{id}"}, {"Delete", "DELETE", "/items/{item_id}"}, {"Put", "PUT", "/items/{id}"},
+			{"Patch", "PATCH", "/items/{item}"}, {"Post", "POST", "/items/{item_id}"}, {"List", "GET", "/items"}, {"Special", "GET", "/items/special"}}},
+		// the later RPC carries the shorter / the longer name; same names in between
+		{"order", []tmplRPC{{"Delete", "DELETE", "/things/{thing_id}"}, {"Get", "GET", "/things/{id}"}, {"Put", "PUT", "/things/{thing_id}"}}},
+		// two variables: both differ, one differs (first / second), swapped names
+		{"two", []tmplRPC{{"Get", "GET", "/users/{user_id}/posts/{id}"}, {"Delete", "DELETE", "/users/{uid}/posts/{post_id}"},
+			{"Put", "PUT", "/users/{user_id}/posts/{post_id}"}, {"Patch", "PATCH", "/users/{uid}/posts/{id}"}, {"Post", "POST", "/users/{id}/posts/{user_id}"}}},
+		// adjacent variables, variable first, variable last with a literal tail
+		{"adjacent", []tmplRPC{{"Get", "GET", "/pair/{a}/{b}"}, {"Delete", "DELETE", "/pair/{b}/{a}"}, {"Put", "PUT", "/pair/{left}/{right}"},
+			{"Head", "PATCH", "/{id}/tail"}, {"Tail", "DELETE", "/{key}/tail"}, {"Lit", "GET", "/docs/{id}/raw"}, {"Lit2", "PUT", "/docs/{doc_id}/raw"}}},
+		// the same variables at different positions (different hierarchies that look alike)
+		{"position", []tmplRPC{{"Mid", "GET", "/a/{id}/b"}, {"End", "PUT", "/a/b/{id}"}, {"Mid2", "DELETE", "/a/{key}/b"}, {"End2", "PATCH", "/a/b/{key}"},
+			{"Deep", "GET", "/a/{id}/b/{key}"}, {"Deep2", "DELETE", "/a/{key}/b/{id}"}}},
+		// a prefix of another template, trailing slash, repeated variable name across hierarchies
+		{"prefix", []tmplRPC{{"Coll", "GET", "/orgs/{org}"}, {"Sub", "GET", "/orgs/{org_id}/members"}, {"SubOne", "GET", "/orgs/{org}/members/{id}"},
+			{"SubDel", "DELETE", "/orgs/{o}/members/{member_id}"}, {"CollDel", "DELETE", "/orgs/{org_id}"}, {"Slash", "PUT", "/orgs/{org_id}/"}}},
+	}
+	bases := []string{"/api/v1", "", "/api/", "/"}
+	for fi, fam := range families {
+		for bi, base := range bases {
+			if (fi+bi)%2 == 1 && bi > 1 {
+				continue // the odd base shapes for every other family
+			}
+			id := fmt.Sprintf("rttmpl%s%d", fam.id, bi)
+			pkg := id + ".v1"
+			f := &File{Messages: []*Message{M("Resp", F("ok", 1, "bool"))}}
+			f.Services = []*Service{templateFamilyService(pkg, "T", base, fam.rpcs, f)}
+			if bi == 0 {
+				// the same family in a second service of the same file, RPCs reversed: path items are per document
+				rev := make([]tmplRPC, len(fam.rpcs))
+				for i, t := range fam.rpcs {
+					rev[len(fam.rpcs)-1-i] = t
+				}
+				f.Services = append(f.Services, templateFamilyService(pkg, "Rev", "/rev", rev, f))
+			}
+			r := OneFile(id, pkg, f)
+			r.Tags = []string{"routes", "template-family"}
+			out = append(out, r)
+		}
+	}
+	return out
+}
+
+// RandomTemplateFamilyRequests: seeded services made of hierarchies (literal and variable slots) with
+// 2-5 RPCs each, one per verb, whose variable names are drawn independently per RPC.
+func RandomTemplateFamilyRequests(rng *rand.Rand, n int) []*Request {
+	var out []*Request
+	names := []string{"id", "item_id", "key", "user_id", "uid", "name", "k9", "n"}
+	lits := []string{"items", "v1", "x-y", "u_v", "Z", "parts"}
+	for i := 0; i < n; i++ {
+		id := fmt.Sprintf("rttmplrand%d", i)
+		pkg := id + ".v1"
+		f := &File{Messages: []*Message{M("Resp", F("ok", 1, "bool"))}}
+		base := []string{"", "/api", "/api/v1", "/b/", "/"}[rng.Intn(5)]
+		var rpcs []tmplRPC
+		nh := 1 + rng.Intn(3)
+		for h := 0; h < nh; h++ {
+			// hierarchy: /h<h>/ then 1-3 slots, at least one variable
+			ns := 1 + rng.Intn(3)
+			slots := make([]bool, ns)
+			slots[rng.Intn(ns)] = true
+			for k := range slots {
+				if rng.Intn(2) == 0 {
+					slots[k] = true
+				}
+			}
+			litAt := make([]string, ns)
+			for k := range litAt {
+				litAt[k] = lits[rng.Intn(len(lits))]
+			}
+			verbs := rng.Perm(5)[:2+rng.Intn(4)]
+			for _, vi := range verbs {
+				perm := rng.Perm(len(names))
+				var segs []string
+				pi := 0
+				for k, isVar := range slots {
+					if isVar {
+						segs = append(segs, "{"+names[perm[pi]]+"}")
+						pi++
+					} else {
+						segs = append(segs, litAt[k])
+					}
+				}
+				rpcs = append(rpcs, tmplRPC{fmt.Sprintf("H%d%s", h, routeVerbs[vi]), routeVerbs[vi], fmt.Sprintf("/h%d/", h) + strings.Join(segs, "/")})
+			}
+		}
+		rng.Shuffle(len(rpcs), func(a, b int) { rpcs[a], rpcs[b] = rpcs[b], rpcs[a] })
+		f.Services = []*Service{templateFamilyService(pkg, "R", base, rpcs, f)}
+		r := OneFile(id, pkg, f)
+		r.Tags = []string{"routes", "template-family", "random"}
+		out = append(out, r)
+	}
+	return out
+}
